@@ -4,13 +4,13 @@ CONSTANTS
   InitLive = {"h1"}
   Variant = "sync"
   AllowClone = FALSE
-  AllowTake2 = TRUE
+  AllowTake2 = FALSE
   AllowCancel = FALSE
   AllowSpurious = FALSE
   FileLayer = FALSE
   SilentRelease = FALSE
   ForgetsHandle = FALSE
-  MaxMigrate = 0
+  MaxMigrate = 1
   RegisterOnce = FALSE
 SPECIFICATION GSpec
 INVARIANTS Emit
